@@ -295,56 +295,188 @@ theorem body_noUnderscore (k : Case) (s : List Char) (hk : k ≠ .none) (hl : li
   obtain ⟨t, ht, f, rfl⟩ := mem_convTokens k _ x hx
   exact noUnderscore_convTok k f t (tokens_noUnderscore k s hk t ht)
 
+/-! ### capital letters exactly at the word starts; separators kept in place -/
+
+/-- the converted characters written directly: `_` dropped, the first character of every word upper-cased (of the first word
+    only when `start`), every other character lower-cased -/
+def capsGo (start : Bool) : List Char → List Char
+  | [] => []
+  | c :: cs => if c = '_' then capsGo true cs else (if start then up c else lo c) :: capsGo false cs
+
+theorem tokens_capsGo (start : Bool) (s : List Char) :
+    (match splitU s with
+     | [] => []
+     | t :: ts => (if start then capitalizeL t else lowerL t) ++ (ts.map capitalizeL).flatten) = capsGo start s := by
+  induction s generalizing start with
+  | nil => cases start <;> simp [splitU, capsGo, capitalizeL, lowerL]
+  | cons c cs ih =>
+    by_cases h : c = '_'
+    · have h1 := ih true
+      simp only [splitU, h, if_true, capsGo]
+      cases hs : splitU cs with
+      | nil => exact absurd hs (splitU_ne_nil cs)
+      | cons t ts =>
+        rw [hs] at h1
+        simp only [if_true] at h1
+        have e1 : capitalizeL ([] : List Char) = [] := rfl
+        have e2 : lowerL ([] : List Char) = [] := rfl
+        cases start <;> simp [e1, e2, h1]
+    · have h1 := ih false
+      simp only [splitU, h, if_false, capsGo]
+      cases hs : splitU cs with
+      | nil => exact absurd hs (splitU_ne_nil cs)
+      | cons t ts =>
+        rw [hs] at h1
+        simp only [Bool.false_eq_true, if_false] at h1
+        have e1 : capitalizeL (c :: t) = up c :: lowerL t := rfl
+        have e2 : lowerL (c :: t) = lo c :: lowerL t := rfl
+        cases start <;> simp [e1, e2, h1]
+
+theorem capsAt_capsGo (start : Bool) (s : List Char) : capsAt (wordStarts start s) (capsGo start s) = true := by
+  induction s generalizing start with
+  | nil => rfl
+  | cons c cs ih =>
+    by_cases h : c = '_'
+    · simp [wordStarts, capsGo, h, ih]
+    · cases start <;> simp [wordStarts, capsGo, h, capsAt, ih, (lo_props c).2.2.1, (lo_props c).2.2.2.1]
+
+theorem pascal_body_eq (s : List Char) : convertBody .pascal s = capsGo true s := by
+  have h := tokens_capsGo true s
+  simp only [convertBody, link, joinL_nil_sep, tokensOf]
+  cases hs : splitU s with
+  | nil => exact absurd hs (splitU_ne_nil s)
+  | cons t ts =>
+    have e : convTok .pascal false = capitalizeL := by funext t; rfl
+    rw [hs] at h; simpa [convTokens, convTok, e] using h
+
+theorem camel_body_eq (s : List Char) : convertBody .camel s = capsGo false s := by
+  have h := tokens_capsGo false s
+  simp only [convertBody, link, joinL_nil_sep, tokensOf]
+  cases hs : splitU s with
+  | nil => exact absurd hs (splitU_ne_nil s)
+  | cons t ts =>
+    have e : convTok .camel false = capitalizeL := by funext t; rfl
+    rw [hs] at h; simpa [convTokens, convTok, e] using h
+
+theorem joinL_cons_cons (sep : List Char) (x : Char) (t : List Char) (ts : List (List Char)) :
+    joinL sep ((x :: t) :: ts) = x :: joinL sep (t :: ts) := by
+  cases ts <;> simp [joinL]
+
+/-- splitting at `_`, changing every token character by character and joining with one separator is a character-wise map -/
+theorem joinL_map_splitU (sep : Char) (g : Char → Char) (s : List Char) :
+    joinL [sep] ((splitU s).map (List.map g)) = s.map (fun c => if c = '_' then sep else g c) := by
+  induction s with
+  | nil => simp [splitU, joinL]
+  | cons c cs ih =>
+    by_cases h : c = '_'
+    · simp only [splitU, h, if_true]
+      cases hs : splitU cs with
+      | nil => exact absurd hs (splitU_ne_nil cs)
+      | cons t ts => rw [hs] at ih; simp only [List.map_cons] at ih; simp [joinL, ih]
+    · simp only [splitU, h, if_false]
+      cases hs : splitU cs with
+      | nil => exact absurd hs (splitU_ne_nil cs)
+      | cons t ts => rw [hs] at ih; simp only [List.map_cons] at ih; simp [joinL_cons_cons, ih, h]
+
+theorem foldSep_lo (c : Char) : foldSep (lo c) = foldSep c := by
+  simp [foldSep, isSep_lo, (lo_props c).1]
+
+theorem foldSep_up (c : Char) : foldSep (up c) = foldSep c := by
+  simp [foldSep, isSep_up, (lo_props c).2.1]
+
+theorem sameSkeleton_map (sep : Char) (hsep : foldSep sep = '_') (g : Char → Char) (hg : ∀ c, foldSep (g c) = foldSep c) (s : List Char) :
+    sameSkeleton s (s.map (fun c => if c = '_' then sep else g c)) = true := by
+  simp only [sameSkeleton, List.map_map, beq_iff_eq]
+  apply List.map_congr_left
+  intro c _
+  by_cases h : c = '_'
+  · subst h; simp [hsep]; decide
+  · simp [h, hg]
+
+theorem convTokens_uniform (k : Case) (f : List Char → List Char) (h : ∀ b t, convTok k b t = f t) (ts : List (List Char)) :
+    convTokens k ts = ts.map f := by
+  cases ts <;> simp [convTokens, h]
+
+theorem sep_body_eq (k : Case) (sep : Char) (g : Char → Char) (hk : k ≠ .none) (hl : link k = [sep]) (h : ∀ b t, convTok k b t = t.map g)
+    (s : List Char) : convertBody k s = s.map (fun c => if c = '_' then sep else g c) := by
+  simp only [convertBody, tokensOf, hk, if_false, hl, convTokens_uniform k (List.map g) h]
+  exact joinL_map_splitU sep g s
+
 /-- **convert_style** — for every identifier that does not start with an underscore (every identifier of the IDL
-    grammar starts with a letter) the converted name has the shape of the configured style.
+    grammar starts with a letter) the converted name has the shape of the configured style: for camelCase / PascalCase capital
+    letters exactly at the starts of the `_`-separated words, for the separator styles every separator kept in place.
     The hypothesis is needed for `camelCase` only: `convert camel "_ab" = "Ab"` (probed on the real code by the check). -/
 theorem convert_style (k : Case) (s : List Char) (h : s.head? ≠ some '_') : styleShape k s (convertBody k s) = true := by
   cases k with
   | none => simp [styleShape, convertBody, tokensOf, convTokens, convTok, joinL]
   | snake =>
-    simp only [styleShape, convertBody]
-    apply all_joinL _ _ (by decide)
-    intro x hx
-    obtain ⟨t, _, f, rfl⟩ := mem_convTokens _ _ x hx
-    cases f <;> simp only [convTok, lowerL, List.all_map, List.all_eq_true] <;> intro c _ <;> exact not_upper_lo c
+    simp only [styleShape, Bool.and_eq_true]
+    refine ⟨?_, ?_⟩
+    · simp only [convertBody]
+      apply all_joinL _ _ (by decide)
+      intro x hx
+      obtain ⟨t, _, f, rfl⟩ := mem_convTokens _ _ x hx
+      cases f <;> simp only [convTok, lowerL, List.all_map, List.all_eq_true] <;> intro c _ <;> exact not_upper_lo c
+    · rw [sep_body_eq .snake '_' lo (by decide) rfl (by intro b t; cases b <;> rfl)]
+      exact sameSkeleton_map '_' (by decide) lo foldSep_lo s
   | train =>
-    simp only [styleShape, convertBody]
-    apply all_joinL _ _ (by decide)
-    intro x hx
-    obtain ⟨t, _, f, rfl⟩ := mem_convTokens _ _ x hx
-    cases f <;> simp only [convTok, upperL, List.all_map, List.all_eq_true] <;> intro c _ <;> exact not_lower_up c
+    simp only [styleShape, Bool.and_eq_true]
+    refine ⟨?_, ?_⟩
+    · simp only [convertBody]
+      apply all_joinL _ _ (by decide)
+      intro x hx
+      obtain ⟨t, _, f, rfl⟩ := mem_convTokens _ _ x hx
+      cases f <;> simp only [convTok, upperL, List.all_map, List.all_eq_true] <;> intro c _ <;> exact not_lower_up c
+    · rw [sep_body_eq .train '_' up (by decide) rfl (by intro b t; cases b <;> rfl)]
+      exact sameSkeleton_map '_' (by decide) up foldSep_up s
   | kebab =>
-    simp only [styleShape, convertBody]
-    apply all_joinL _ _ (by decide)
-    intro x hx
-    obtain ⟨t, ht, f, rfl⟩ := mem_convTokens _ _ x hx
-    have hu := noUnderscore_convTok .kebab f t (tokens_noUnderscore .kebab s (by decide) t ht)
-    simp only [List.all_eq_true] at hu ⊢
-    intro c hc
-    have h1 := hu c hc
-    cases f <;> simp only [convTok, lowerL, List.mem_map] at hc <;> obtain ⟨d, _, rfl⟩ := hc <;>
-      simp only [Bool.and_eq_true] <;> exact ⟨not_upper_lo d, h1⟩
+    simp only [styleShape, Bool.and_eq_true]
+    refine ⟨?_, ?_⟩
+    · simp only [convertBody]
+      apply all_joinL _ _ (by decide)
+      intro x hx
+      obtain ⟨t, ht, f, rfl⟩ := mem_convTokens _ _ x hx
+      have hu := noUnderscore_convTok .kebab f t (tokens_noUnderscore .kebab s (by decide) t ht)
+      simp only [List.all_eq_true] at hu ⊢
+      intro c hc
+      have h1 := hu c hc
+      cases f <;> simp only [convTok, lowerL, List.mem_map] at hc <;> obtain ⟨d, _, rfl⟩ := hc <;>
+        simp only [Bool.and_eq_true] <;> exact ⟨not_upper_lo d, h1⟩
+    · rw [sep_body_eq .kebab '-' lo (by decide) rfl (by intro b t; cases b <;> rfl)]
+      exact sameSkeleton_map '-' (by decide) lo foldSep_lo s
   | pascal =>
     simp only [styleShape, Bool.and_eq_true]
-    refine ⟨body_noUnderscore .pascal s (by decide) rfl, ?_⟩
-    simp only [convertBody, link, joinL_nil_sep]
-    have : convTokens .pascal (tokensOf .pascal s) = (tokensOf .pascal s).map capitalizeL := by
-      cases tokensOf .pascal s <;> simp [convTokens, convTok]
-    rw [this]
-    exact headOk_flatten_capitalize _
+    refine ⟨⟨body_noUnderscore .pascal s (by decide) rfl, ?_⟩, ?_⟩
+    · simp only [convertBody, link, joinL_nil_sep]
+      have : convTokens .pascal (tokensOf .pascal s) = (tokensOf .pascal s).map capitalizeL := by
+        cases tokensOf .pascal s <;> simp [convTokens, convTok]
+      rw [this]
+      exact headOk_flatten_capitalize _
+    · rw [pascal_body_eq]; exact capsAt_capsGo true s
   | camel =>
     simp only [styleShape, Bool.and_eq_true]
-    refine ⟨body_noUnderscore .camel s (by decide) rfl, ?_⟩
-    simp only [convertBody, link, joinL_nil_sep, tokensOf]
-    cases s with
-    | nil => decide
-    | cons c cs =>
-      have hc : c ≠ '_' := by simpa using h
-      simp only [splitU, hc, if_false]
-      cases hs : splitU cs with
-      | nil => exact absurd hs (splitU_ne_nil cs)
-      | cons t ts =>
-        simp [convTokens, convTok, lowerL, headOk, (lo_props c).2.2.1]
+    refine ⟨⟨body_noUnderscore .camel s (by decide) rfl, ?_⟩, ?_⟩
+    · simp only [convertBody, link, joinL_nil_sep, tokensOf]
+      cases s with
+      | nil => decide
+      | cons c cs =>
+        have hc : c ≠ '_' := by simpa using h
+        simp only [splitU, hc, if_false]
+        cases hs : splitU cs with
+        | nil => exact absurd hs (splitU_ne_nil cs)
+        | cons t ts =>
+          simp [convTokens, convTok, lowerL, headOk, (lo_props c).2.2.1]
+    · rw [camel_body_eq]; exact capsAt_capsGo false s
+
+/-- what the shape excludes: a capital letter after a digit (`str.title()` instead of `str.capitalize()`), an inner capital kept,
+    a doubled separator collapsed, a trailing separator dropped -/
+example : styleShape .pascal "vec3d".toList "Vec3D".toList = false := by decide
+example : styleShape .camel "to_base64url".toList "toBase64Url".toList = false := by decide
+example : styleShape .pascal "vec3d".toList "Vec3d".toList = true := by decide
+example : styleShape .pascal "fooBar".toList "FooBar".toList = false := by decide
+example : styleShape .snake "a__b".toList "a_b".toList = false := by decide
+example : styleShape .train "e_".toList "E".toList = false := by decide
+example : styleShape .kebab "x1_Y2".toList "x1-y2".toList = true := by decide
 
 /-- the excluded point: a leading underscore gives a capitalised first letter under `camelCase` -/
 example : styleShape .camel "_ab".toList (convertBody .camel "_ab".toList) = false := by decide
